@@ -166,6 +166,16 @@ class TmpPath(T):
     kind = "TmpPath"
 
 
+class Raises(T):
+    """Trace return descriptor: the mocked call either returns a value of `inner` or raises one of `excs`."""
+
+    kind = "Raises"
+
+    def __init__(self, inner, *excs):
+        self.inner = inner
+        self.excs = list(excs)
+
+
 def Vec3():
     return ListOf(Real, 3)
 
@@ -205,7 +215,9 @@ class Contract:
         ghost_witness=None,
         stubs=None,
         trace=None,
+        exsures=(),
     ):
+        self.exsures = list(exsures)  # clauses that must hold whenever an exception escapes
         # callee key (or "module:Class.*") -> descriptor of the value returned; the call is recorded, not executed
         self.trace = dict(trace or {})
         self.stubs = dict(stubs or {})  # callee key -> name of a side-car function standing in for it (trusted)
